@@ -224,7 +224,13 @@ def build(pl, r):
         if not dead:
             exp.append(('tag', 43001))
     elif place == 'sub':
-        lines += ['zouter', 'PRINT 43001&', 'END'] + gs + handler
+        if r.random() < 0.5:
+            # two calls deep: main -> zvia (locals of its own) -> zouter; the module-level handler still works on main's variables
+            pl['depth2'] = True
+            lines += ['zvia 7', 'PRINT 43001&', 'END'] + gs + handler
+            procs += ['SUB zvia (zvk%)', 'zvl1& = 123456', 'zvl2$ = "via"', 'zouter', 'zvl3% = zvk% + 1', 'END SUB']
+        else:
+            lines += ['zouter', 'PRINT 43001&', 'END'] + gs + handler
         procs += ['SUB zouter', 'DIM zarr(3)', 'zone% = 1'] + [b for b in body if 'GOSUB' not in b] + ['END SUB']
         exp = [e for e, s_ in zip(exp, exp)]
     else:
